@@ -72,6 +72,7 @@ def evalLine (fn0 tag : String) (a : Array Int) : String :=
   | "ge", 2 => bool01 (ge a0 a1)
   | "eq", 2 => bool01 (eq a0 a1)
   | "ne", 2 => bool01 (ne a0 a1)
+  | "roundtrip_d", 1 => (fpToFixed b64 (fixedToFp b64 a0)).show
   | "sqrt_abacus", 1 => (sqrtAbacus a0).show
   | "sqrt_std", 1 => (sqrtStd a0).show
   | "sin", 1 => (sin a0).show
